@@ -51,6 +51,7 @@ type advCase struct {
 	CN        string `json:"common_name,omitempty"`
 	BaseTLS   bool   `json:"base_tls"`
 	FetchMode bool   `json:"fetch_prefix,omitempty"` // use the fetch prefix instead (must never yield a connection)
+	Mixed     string `json:"mixed_prefixes,omitempty"` // fetch-first | auth-first: a fetch request and the authentication request in one ALPN list
 
 	// mutate
 	Level string `json:"level,omitempty"` // proto | alpn
@@ -319,6 +320,15 @@ func (w *advWorld) buildProduct(c advCase) (world.ClientSpec, advVerdict, bool) 
 	} else {
 		protos = world.AuthProtos(req)
 	}
+	if c.Mixed != "" && !c.FetchMode {
+		enc := world.NewX25519()
+		fp := world.FetchProtos(world.Sign(world.BaseInfo(k, enc.Pub, world.RandBytes(32)), k.Priv))
+		if c.Mixed == "fetch-first" {
+			protos = append(fp, protos...)
+		} else {
+			protos = append(protos, fp...)
+		}
+	}
 	protos = append(protos, "h2")
 	switch c.Pref {
 	case "valid":
@@ -358,7 +368,8 @@ func (w *advWorld) buildProduct(c advCase) (world.ClientSpec, advVerdict, bool) 
 			v.sigOK = true
 		}
 	}
-	v.mayAuth = v.n1 && v.n2 && v.sigOK && !c.FetchMode
+	// with the fetch request listed first the server handles the connection as a credential fetch
+	v.mayAuth = v.n1 && v.n2 && v.sigOK && !c.FetchMode && c.Mixed != "fetch-first"
 	v.why = fmt.Sprintf("possession=%v validroot=%v record+sig=%v", v.n1, v.n2, v.sigOK)
 	v.positive = v.mayAuth && c.Identity == "A" && c.NonceSig == "self" && c.Cert != "otherleaf" && !c.Skip && c.Pref == "valid" &&
 		(c.StateSig == "none" || c.StateSig == "valid") && c.CN == "" && (c.Hint == "none" || (c.Hint == "match"))
@@ -446,7 +457,10 @@ func (w *advWorld) runProduct(c *engine.Ctx, ac advCase) {
 	}
 	// reached the authorization comparison iff the request got past decoding; all product cases do
 	c.R.Eval(engine.J(ac), true)
-	w.judge(c, ac, v, rec, ac.FetchMode)
+	if ac.Mixed != "" {
+		c.R.Count("mixed_prefix_lists:"+ac.Mixed, 1)
+	}
+	w.judge(c, ac, v, rec, ac.FetchMode || ac.Mixed == "fetch-first")
 	finishConn(rec, res)
 }
 
@@ -810,6 +824,26 @@ func runTLSAdv(c *engine.Ctx) engine.Result {
 		pc.FetchMode = true
 		product = append(product, pc)
 	}
+	for i := 5; i < n; i += 9 {
+		pc := product[i]
+		pc.Mixed = []string{"fetch-first", "auth-first"}[(i/9)%2]
+		product = append(product, pc)
+	}
+	// every identity / certificate kind with both mixed orders in the plainest setting
+	for _, wn := range []string{"normal", "both"} {
+		for _, id := range []string{"A", "R", "U"} {
+			for _, cert := range []string{"cur", "selfsigned", "foreign"} {
+				if id == "U" && cert == "cur" {
+					continue
+				}
+				for _, mx := range []string{"fetch-first", "auth-first"} {
+					for _, ns := range []string{"self", "unreg"} {
+						product = append(product, advCase{Kind: "product", World: wn, Storage: world.Inmem, Identity: id, Cert: cert, HoldsKey: true, NonceSig: ns, Hint: "none", StateSig: "none", Pref: "valid", Mixed: mx})
+					}
+				}
+			}
+		}
+	}
 	r.Set("product_space", map[string]any{"full_product": full, "run": len(product), "all": !c.Quick()})
 
 	// group by world so that each worker builds each world once
@@ -944,6 +978,8 @@ func runTLSAdv(c *engine.Ctx) engine.Result {
 	r.Require("oracle_forbids:no_record_or_bad_signature", 10)
 	r.Require("mutations_that_still_decode", 10)
 	r.Require("seq_registered_connects", 10)
+	r.Require("mixed_prefix_lists:fetch-first", 10)
+	r.Require("mixed_prefix_lists:auth-first", 10)
 	if n := r.Counter("positive_control_REJECTED"); n > 0 {
 		r.Inconclusive(fmt.Sprintf("%d fully honest clients were rejected: the authentication path is not functional, so 'only registered nodes authenticate' cannot be judged", n))
 	}
